@@ -1,6 +1,8 @@
 package builder
 
 import (
+	"go/token"
+
 	"github.com/dave/jennifer/jen"
 	"github.com/jmattheis/goverter/xtype"
 )
@@ -15,6 +17,13 @@ func (*SkipCopy) Matches(ctx *MethodContext, source, target *xtype.Type) bool {
 
 // Build creates conversion source code for the given source and target type.
 func (*SkipCopy) Build(_ Generator, _ *MethodContext, sourceID *xtype.JenID, _, _ *xtype.Type, _ ErrorPath) ([]jen.Code, *xtype.JenID, *Error) {
+	if sourceID.Variable && !token.IsIdentifier(sourceID.Code.GoString()) {
+		// The source expression is a field, element or pointee of the source
+		// value. It must not be treated as an addressable variable, otherwise a
+		// T -> *T conversion takes its address and the target points into the
+		// source value instead of to a copy.
+		return nil, xtype.OtherID(sourceID.Code), nil
+	}
 	return nil, sourceID, nil
 }
 
